@@ -31,7 +31,8 @@ class PathInitializeLinks(Contract):
     fragment = "L"
     doc = ("for the j-th step (from, to, overlap) of the path: when both segments are known and _search_link finds a stored link, that link is "
            "recorded, with orientation '-' iff it matches the step in complement form WITH THE OVERLAP (is_compatible_complement(from, to, "
-           "overlap)), else '+'; otherwise a virtual link is created, connected and recorded with '+' (NotFoundError instead when segments "
+           "overlap)) and not as written (is_compatible_direct: a hairpin with a symmetric overlap fits both ways and counts as forward, whichever of "
+           "path and link arrived first), else '+'; otherwise a virtual link is created, connected and recorded with '+' (NotFoundError instead when segments "
            "must come first); every recorded link gets the path as back-reference exactly once; the j-th element of _refs['links'] belongs to "
            "the j-th step (loop invariant over all path lengths; the orientation of a step never depends on the steps before it)")
 
@@ -44,6 +45,7 @@ class PathInitializeLinks(Contract):
         link_of = z3.Function("stored_link", I, I, I, I)
         compl = z3.Function("complement_form_with_overlap", I, I, I, I, B)
         compl_noc = z3.Function("complement_form_ignoring_overlap", I, I, I, B)
+        direct = z3.Function("as_written_with_overlap", I, I, I, I, B)
         sfo = z3.Bool("segments_first_order")
         k, j = z3.Int("k"), z3.Int("j")
         h0 = {"L_n": z3.Const("L_n", AII), "L_e": z3.Const("L_e", z3.ArraySort(I, AII)), "next_list": z3.Int("next_list"),
@@ -76,6 +78,13 @@ class PathInitializeLinks(Contract):
                 yield ("val", compl(self_.t, f_.t, t_.t, c_.t), [])
             else:
                 yield ("val", compl_noc(self_.t, f_.t, t_.t), [])
+        def m_direct(E, st, pos, kw):
+            self_, f_, t_ = pos[:3]
+            self_ = self_.val if isinstance(self_, Opt) else self_
+            c_ = pos[3] if len(pos) > 3 else kw.get("cigar", kw.get("overlap"))
+            if not isinstance(c_, Ref):
+                raise Unsupported("is_compatible_direct without the overlap of the step")
+            yield ("val", direct(self_.t, f_.t, t_.t, c_.t), [])
         def m_link_ctor(E, st, pos, kw):
             zh = dict(st.zh)
             t = zh["next_link"]
@@ -108,6 +117,7 @@ class PathInitializeLinks(Contract):
         models = {f("gfapy/line/group/path/references.py::References._compute_required_links"): m_required,
                   f("gfapy/lines/finders.py::Finders.segment"): m_segment, f("gfapy/lines/finders.py::Finders._search_link"): m_search,
                   f("gfapy/line/edge/link/equivalence.py::Equivalence.is_compatible_complement"): m_compl,
+                  f("gfapy/line/edge/link/equivalence.py::Equivalence.is_compatible_direct"): m_direct,
                   g.line.edge.Link: m_link_ctor, f("gfapy/line/common/connection.py::Connection.connect"): m_connect,
                   g.OrientedLine: m_ol_ctor, f("gfapy/line/common/connection.py::Connection._add_reference"): m_add_reference}
         def step_ok(zh, t):
@@ -115,7 +125,7 @@ class PathInitializeLinks(Contract):
             l = zh["ol_line"][e]
             stored = z3.And(P(t), F(t))
             return z3.And(e == ol_base + t,
-                          zh["ol_orient"][e] == z3.If(z3.And(stored, compl(link_of(frm[t], to[t], cig[t]), frm[t], to[t], cig[t])), sv("-"), sv("+")),
+                          zh["ol_orient"][e] == z3.If(z3.And(stored, compl(link_of(frm[t], to[t], cig[t]), frm[t], to[t], cig[t]), z3.Not(direct(link_of(frm[t], to[t], cig[t]), frm[t], to[t], cig[t]))), sv("-"), sv("+")),
                           z3.If(stored, l == link_of(frm[t], to[t], cig[t]),
                                 z3.And(l >= link_base, l < zh["next_link"], zh["is_virtual"][l], zh["connected"][l], zh["backrefs"][l] == 1)))
         def inv0(i, st):
